@@ -2156,3 +2156,35 @@ fn verif_c04_race() {
         exec_race,
     );
 }
+
+// The same under `--features "ipa-verif multi-threading"` (props/C04.json `extra_builds`, target shared with C15's `mt`
+// build): there `seq_join` / `try_join` SPAWN the per-record futures on the runtime's worker threads, so in `c04.honest` the
+// records of one batch reach `accumulate_macs` (through the real upgrade / multiply) from several OS threads by themselves —
+// the production path on which a non-atomic update of (u, w) bites. Large batches (many records in flight), honest runs
+// must open the plaintext values with consistent MACs; plus the explicit thread race again in this build.
+#[cfg(feature = "multi-threading")]
+#[test]
+fn verif_c04mt_race() {
+    run_suite(
+        "c04mt_race",
+        |rng, thorough| {
+            let k = if thorough { 10 } else { 1 };
+            let mut out = vec![];
+            for (field, who, threads, rounds, steps, rpb) in [("Fp32BitPrime", "all", 4usize, 60usize, 8usize, 16usize), ("Fp32BitPrime", "2", 4, 60, 8, 16)] {
+                out.push(format!("c04.race {field} {who} {threads} {} {steps} {rpb} {}", rounds * k, rng.below(1 << 40)));
+            }
+            for rep in 0..3 * k {
+                for (field, rpb, count, prog) in [
+                    ("Fp32BitPrime", 64usize, 64usize, "u.u.m0:1.m2:0"),
+                    ("Fp32BitPrime", 32, 96, "u.u.u.m0:1.m3:2"),
+                    ("Fp25519", 16, 32, "u.u.m0:1"),
+                ] {
+                    let inputs = gen_inputs(rng, field, prog, count, rep == 0, false);
+                    out.push(format!("c04.honest {field} {rpb} {count} {} {prog} {inputs}", rng.below(1 << 30)));
+                }
+            }
+            out
+        },
+        |req| if req.starts_with("c04.race ") { exec_race(req) } else { exec_mac(req) },
+    );
+}
